@@ -5,7 +5,7 @@
 //! Line protocol (see lean/SwimVerif/Model/FramesMon.lean):
 //!   codec <name> ;; ok | enc <msg> ;; frame <hex> | reset ;; ok | feed <hex> ;; <status> [<msg> ...]
 //!
-//! CLI: `gen <seed> <sequences> <out> <raw|typed> <valid|mutate> [codec]`, `replay <ops> <out>`.
+//! CLI: `gen <seed> <sequences> <out> <raw|typed|typedbare> <valid|mutate|resync> [codec]`, `replay <ops> <out>`.
 //! The decoders always run in a worker child process: some of them `reserve` what a length field announces and
 //! the failed allocation aborts the process (reported as `abort`); allocations of 293 000 000 bytes or more always fail
 //! (`Limited` allocator), so that this does not depend on the machine.
@@ -1130,6 +1130,56 @@ fn tag_offset(name: &str) -> Option<usize> {
     }
 }
 
+/// Where the Recon text of a body string of `msg` (hex tokens of the message text) sits inside its frame, with a
+/// label: `key` / `value` of a map update, `rkey` of a map remove, `body` otherwise. Names (node, lane, host) are
+/// left alone: a name that is not UTF-8 any more is an error of the header, after which no decoder claims to know
+/// where the frame ends.
+fn recon_regions(codec: &str, msg: &str, frame: &[u8]) -> Vec<(usize, usize, &'static str)> {
+    let fam = codec.split('-').next().unwrap();
+    let toks: Vec<&str> = msg.split(|c| c == ':' || c == '(' || c == ')').filter(|t| !t.is_empty()).collect();
+    let routed = matches!(fam, "reqmsg" | "respmsg" | "cmdmsg" | "rawreq" | "rawresp" | "rawcmd");
+    let has_body = matches!(toks.first().copied(), Some("cmd" | "event" | "adr" | "rgd"));
+    let mut out = vec![];
+    let mut next: Vec<&'static str> = vec![];
+    for (k, tok) in toks.iter().enumerate() {
+        match *tok {
+            "upd" => {
+                next = vec!["value", "key"];
+                continue;
+            }
+            "rem" => {
+                next = vec!["rkey"];
+                continue;
+            }
+            _ => {}
+        }
+        if tok.len() < 2 || tok.len() % 2 != 0 || !tok.bytes().all(|b| b.is_ascii_hexdigit()) {
+            continue;
+        }
+        let label = next.pop().unwrap_or("body");
+        if routed && !(has_body && k == toks.len() - 1) {
+            continue;
+        }
+        if !routed && label == "body" && tok.len() == 32 && k >= 1 && matches!(toks[k - 1], "sync" | "sev" | "synced") {
+            continue; // a uuid
+        }
+        let s = match un_str(tok) {
+            Some(s) => s,
+            None => continue,
+        };
+        let r = recon(&s);
+        if r.is_empty() || r.len() > frame.len() {
+            continue;
+        }
+        if let Some(o) = (0..=frame.len() - r.len()).rev().find(|&o| frame[o..o + r.len()] == r[..]) {
+            if !out.iter().any(|&(o2, _, _)| o2 == o) {
+                out.push((o, r.len(), label));
+            }
+        }
+    }
+    out
+}
+
 struct Case {
     id: String,
     ops: Vec<String>,
@@ -1172,6 +1222,72 @@ fn build_cases(info: &CodecInfo, r: &mut Rng, mode: &str, tag: &str, out: &mut V
     head.extend(msgs.iter().map(|m| format!("enc {}", m)));
     if frames.iter().any(|f| f.is_empty()) {
         out.push(Case { id: format!("{} encfail", tag), ops: head });
+        return;
+    }
+    if mode == "resync" {
+        // corrupt ONE byte inside the Recon text of a body (key / value / name) of one message: every length field
+        // stays intact, so the frame boundaries are still recoverable; the corrupted message must come out as one
+        // error (or one message, if the text still parses) and every later message exactly as encoded
+        let mut cands: Vec<(usize, usize, usize, &'static str)> = vec![]; // (frame, offset in frame, len, label)
+        for (i, (m, f)) in msgs.iter().zip(frames.iter()).enumerate() {
+            for (o, l, lab) in recon_regions(info.name, m, f) {
+                cands.push((i, o, l, lab));
+            }
+        }
+        if cands.is_empty() {
+            return;
+        }
+        let starts: Vec<usize> = frames
+            .iter()
+            .scan(0usize, |s, f| {
+                let st = *s;
+                *s += f.len();
+                Some(st)
+            })
+            .collect();
+        let (fi, off, len, label) = *r.pick(&cands);
+        let mut s = stream.clone();
+        let (pos, byte) = match r.below(6) {
+            0 | 1 => (off, *r.pick(&[b'{', b')', b'@', b']', 0xffu8])),
+            2 => (off + len - 1, *r.pick(&[b'{', b'(', b'\\', 0xc3u8])),
+            3 => (off + r.below(len as u64) as usize, *r.pick(&[b'"', b'\\', b'{', b'}', b' ', 0x80u8])),
+            _ => (off + r.below(len as u64) as usize, r.range(0x20, 0x7e) as u8),
+        };
+        let p = starts[fi] + pos;
+        if s[p] == byte {
+            s[p] = b'}';
+        }
+        else {
+            s[p] = byte;
+        }
+        head.push(format!("expect-resync {} {}", fi, label));
+        let mut ops = head.clone();
+        for cut in 0..=s.len() {
+            ops.push("reset".into());
+            ops.push(format!("feed {}", hex(&s[..cut])));
+            ops.push(format!("feed {}", hex(&s[cut..])));
+            ops.push("feed -".into());
+            ops.push("feed -".into());
+            ops.push("end".into());
+        }
+        out.push(Case { id: format!("{} resync split1 frame={} at={} len={}", tag, fi, p, s.len()), ops });
+        let mut ops = head.clone();
+        for k in 0..4u64 {
+            ops.push("reset".into());
+            let maxc = match k {
+                0 => 1,
+                1 => 3,
+                2 => 9,
+                _ => 40,
+            };
+            for c in random_chunks(r, &s, maxc) {
+                ops.push(format!("feed {}", hex(&c)));
+            }
+            ops.push("feed -".into());
+            ops.push("feed -".into());
+            ops.push("end".into());
+        }
+        out.push(Case { id: format!("{} resync multi frame={} at={} len={}", tag, fi, p, s.len()), ops });
         return;
     }
     if mode == "valid" {
@@ -1340,6 +1456,10 @@ fn exec_case(ops: &[String], mut emit: impl FnMut(&str, &str)) {
                     drv = None;
                     "bad-op".into()
                 }
+            },
+            ["expect-resync", _, _] | ["end"] => match drv.as_ref() {
+                Some(_) => "ok".into(),
+                None => "bad-op".into(),
             },
             ["reset"] => match drv.as_mut() {
                 Some(d) => {
